@@ -1,14 +1,75 @@
-import PegVerif.Props.C01
+import PegVerif.Props.C12
 /-
-  C06 — property theorems.  The refinement theorem R and its corollaries are added here as they are
-  proved; until then this property rests on C01's semantic facts plus the ties named in MANIFEST.json.
+  C06 — packrat memoisation is invisible except in speed.
+
+  R is proved with the memo table present (invariant `MemoOK`: every entry agrees with the PEG
+  semantics of its rule at its position, and every token attempted while it was computed ends at or
+  before the current `maxToken.end`).  A memo hit therefore returns exactly what re-running the rule
+  would: same verdict, same position, same live tokens, and — by the absorption lemma
+  `foldl_updTok_absorb` — the same `maxToken`.
 -/
 namespace PegVerif
 
-theorem C06_semantics_deterministic {G ρ inp e p r1 ev1 r2 ev2}
-    (h1 : Eval G ρ inp e p r1 ev1) (h2 : Eval G ρ inp e p r2 ev2) : r1 = r2 ∧ ev1 = ev2 :=
-  Eval_det h1 h2
+variable {P : Program} {cfg : Cfg} {env : CEnv} {G : Grammar} {inp : List Sym}
+
+/-- `World` does not mention the memoisation switch. -/
+theorem World.withMemo (hW : World P cfg env G inp) (b : Bool) :
+    World P { cfg with memo := b } env G inp :=
+  ⟨hW.ast, hW.envAst, hW.inpOK, hW.always, hW.rules, hW.idInj⟩
+
+/-- **C06**: the same emitted parser run with memoisation and with `DisableMemoize` returns the
+    same verdict, the same end position, on success the same token list and on failure the same
+    error token — for every input on which the semantics is defined, from a fresh or reset parser. -/
+theorem C06_memo_invisible (hW : World P cfg env G inp) {n cr res evs s1 s2 o1 o2 t1 t2}
+    (h1 : AfterReset s1) (h2 : AfterReset s2) (hfind : P.find n = some cr)
+    (hev : Eval G cfg.rho inp (.name n) 0 res evs)
+    (r1 : Exec P { cfg with memo := true } inp cr 0 s1 Frame.empty (o1, t1))
+    (r2 : Exec P { cfg with memo := false } inp cr 0 s2 Frame.empty (o2, t2)) :
+    o1 = o2 ∧ t1.pos = t2.pos ∧ (o1 = .ret true → t1.tree.take t1.ti = t2.tree.take t2.ti) ∧
+    t1.maxTok = t2.maxTok := by
+  have a := R_rule_all (hW.withMemo true) hfind hev h1.1 (Nat.zero_le _)
+    (by rw [h1.2.1]; exact Nat.zero_le _) (by rw [h1.2.2.2]; exact memoOK_nil) r1
+  have b := R_rule_all (hW.withMemo false) hfind hev h2.1 (Nat.zero_le _)
+    (by rw [h2.2.1]; exact Nat.zero_le _) (by rw [h2.2.2.2]; exact memoOK_nil) r2
+  cases res with
+  | ok p' forest =>
+    obtain ⟨a1, a2, _, a4, _, a6, _⟩ := a
+    obtain ⟨b1, b2, _, b4, _, b6, _⟩ := b
+    refine ⟨by rw [a1, b1], by rw [a2, b2], ?_, by rw [a6, b6, h1.2.2.1, h2.2.2.1]⟩
+    intro _
+    rw [a4, b4, h1.2.1, h2.2.1]; simp
+  | fail =>
+    obtain ⟨a1, a2, _, _, _, a6, _⟩ := a
+    obtain ⟨b1, b2, _, _, _, b6, _⟩ := b
+    refine ⟨by rw [a1, b1], by rw [a2, b2], ?_, by rw [a6, b6, h1.2.2.1, h2.2.2.1]⟩
+    intro h; rw [a1] at h; cases h
+
+/-- **C06** (replay): from ANY state whose memo table satisfies the invariant — whether or not it
+    already holds an entry for this rule and position — every run of the rule function restores
+    position, `tokenIndex`, live tokens and `maxToken` exactly as the semantics (i.e. a re-run)
+    prescribes, and the table still satisfies the invariant afterwards. -/
+theorem C06_replay_exact (hW : World P cfg env G inp) {n cr p res evs s o s'}
+    (hfind : P.find n = some cr) (hev : Eval G cfg.rho inp (.name n) p res evs)
+    (hpos : s.pos = p) (hple : p ≤ inp.length) (hlen : s.ti ≤ s.tree.length)
+    (hm : MemoOK P G cfg.rho inp s.memo s.maxTok.e)
+    (hrun : Exec P cfg inp cr 0 s Frame.empty (o, s')) : RuleSpec P G cfg.rho inp s p res evs o s' :=
+  R_rule_all hW hfind hev hpos hple hlen hm hrun
+
+/-- A memoised success never has an empty token list (`m.Partial[len-1]` cannot panic): by the
+    invariant its tokens are the post-order of the forest of a rule application, whose last
+    element is the rule's own token. -/
+theorem C06_partial_nonempty {ρ mtE} {m : MemoEntry} {n : String}
+    (h : EntryOK P G ρ inp mtE m) (hn : (P.find n).isSome = true) (hid : G.idOf n = m.id)
+    (hm : m.matched = true) : m.part ≠ [] := by
+  obtain ⟨res, evs, _, _, _, hmatch⟩ := h n hn hid
+  cases res with
+  | ok p' forest =>
+    obtain ⟨_, _, last, hl, _⟩ := hmatch
+    intro e; rw [e] at hl; simp at hl
+  | fail => rw [hmatch] at hm; cases hm
 
 end PegVerif
 
-#print axioms PegVerif.C06_semantics_deterministic
+#print axioms PegVerif.C06_memo_invisible
+#print axioms PegVerif.C06_replay_exact
+#print axioms PegVerif.C06_partial_nonempty
